@@ -1250,6 +1250,14 @@ impl<'a> GeneratorState<'a> {
     }
 
     pub fn generate_statement(&mut self, code: &'a StatementLoc<'a>) -> Result<(), Error> {
+        // Nothing is known of the processor flags where a function is entered
+        if let Some(f) = &self.current_function {
+            if self.functions_code.get(f).map_or(true, |c| c.size_bytes() == 0) {
+                self.flags = FlagsState::Unknown;
+                self.carry_flag_ok = false;
+            }
+        }
+
         // Include C source code into generated asm
         // debug!("{:?}, {}, {}, {}", expr, pos, self.last_included_position, self.last_included_line_number);
         if self.insert_code {
